@@ -22,6 +22,7 @@ TYPE_EXT = {
     'Transform': {'decl': _opaque('Transform', 'crate::vm::transform::Transform')},
     'BuiltInProc': {'decl': _opaque('BuiltInProc', 'crate::vm::vcell::BuiltInProc')},
     'OpCode': {'decl': _opaque('OpCode', 'crate::vm::opcode::OpCode')},
+    'RcDeref': {'decl': 'pub assume_specification<T: ?Sized, A: core::alloc::Allocator> [<std::rc::Rc<T, A> as core::ops::Deref>::deref] (x: &std::rc::Rc<T, A>) -> (r: &T) ensures r == &**x;'},
     'RefCell': {'decl': '#[verifier::external_type_specification] #[verifier::external_body] #[verifier::reject_recursive_types(T)] pub struct ExRefCell<T: ?Sized>(core::cell::RefCell<T>);'},
     # VCell is transparent (variants visible to contracts); its payload types are opaque
     'VCell': {'decl': '''#[verifier::external_type_specification] pub struct ExVCell(crate::vm::vcell::VCell);
